@@ -66,6 +66,7 @@ func verifDir() string {
 
 type proofKey struct{ key, mode, driver string }
 
+
 type Runner struct {
 	eng      *Engine
 	thorough bool
@@ -88,7 +89,7 @@ func (r *Runner) prove(j Job) *FuncProof {
 		return nil
 	}
 	fc := r.eng.contracts.Funcs[j.Key]
-	opts := ProofOpts{Mode: j.Mode, QuickMs: r.quickMs, SlowMs: r.slowMs, Thorough: r.thorough, Sim: j.Sim, Rel: j.Rel}
+	opts := ProofOpts{Mode: j.Mode, QuickMs: r.quickMs, SlowMs: r.slowMs, Thorough: r.thorough, Sim: j.Sim, Rel: j.Rel, Alloc: j.Alloc}
 	if j.Only != "" {
 		opts.OnlyKinds = map[string]bool{j.Only: true}
 	}
@@ -281,7 +282,7 @@ func runProperty(r *Runner, p *Property, tier string, seed int, t0 time.Time) in
 		}
 		matched := false
 		for _, f := range findings {
-			if f.Kind == "finding" && f.Prop == p.ID && f.Obligation == e.Name {
+			if f.Kind == "finding" && f.Prop == p.ID && findingMatches(f.Obligation, e.Name) {
 				matched = true
 				known = append(known, e.Name)
 				lines = append(lines, fmt.Sprintf("KNOWN-FINDING: property=%s %s", p.ID, f.Text))
@@ -488,4 +489,22 @@ func writeReplay(eng *Engine, p *Property, e *LedgerEntry, fp *FuncProof, base s
 	b, _ := json.MarshalIndent(info, "", " ")
 	os.WriteFile(base+".json", append(b, '\n'), 0o644)
 	return rr
+}
+
+// findingMatches: obligation names in known_findings.txt may use `*` for the cut-point component
+// (one defect shows up at every cut point from which the same exit is reached).
+func findingMatches(pat, name string) bool {
+	if !strings.Contains(pat, "*") {
+		return pat == name
+	}
+	parts := strings.Split(pat, "*")
+	pos := 0
+	for i, part := range parts {
+		j := strings.Index(name[pos:], part)
+		if j < 0 || (i == 0 && j != 0) {
+			return false
+		}
+		pos += j + len(part)
+	}
+	return strings.HasSuffix(name, parts[len(parts)-1])
 }
